@@ -1,7 +1,9 @@
 package props
 
 import (
+	"encoding/xml"
 	"fmt"
+	"io"
 	"os"
 	"path/filepath"
 	"strings"
@@ -90,6 +92,19 @@ func checkReader(kind string, doc []byte) (cur store.Cursor, err error) {
 	switch kind {
 	case "xml":
 		cur, rerr = safeReadXML(doc)
+		// the same document with decoder options a caller may set (any outcome but a panic or a nil/nil return)
+		for i, opt := range xmlOptionVariants {
+			if (len(doc)+i)%3 != 0 {
+				continue
+			}
+			oc, oerr := safeReadXMLWith(doc, opt)
+			if pe, ok := oerr.(*panicError); ok {
+				return nil, fmt.Errorf("ReadXml with option variant %d panicked: %v", i, pe.v)
+			}
+			if oerr == nil && oc == nil {
+				return nil, fmt.Errorf("ReadXml with option variant %d returned a nil cursor and a nil error", i)
+			}
+		}
 	case "html":
 		cur, rerr = safeReadHTML(string(doc))
 	default:
@@ -438,4 +453,27 @@ func FuzzPair(f *testing.F) {
 			fuzzFail(t, "FuzzPair", c, err)
 		}
 	})
+}
+
+var xmlOptionVariants = []xsel.XmlParseOptions{
+	func(d *xml.Decoder) { d.Strict = false },
+	func(d *xml.Decoder) { d.CharsetReader = nil },
+	func(d *xml.Decoder) { d.Entity = map[string]string{"nbsp": "\u00a0", "e": "<x/>"} },
+	func(d *xml.Decoder) { d.Strict, d.AutoClose, d.Entity = false, xml.HTMLAutoClose, xml.HTMLEntity },
+	func(d *xml.Decoder) { d.DefaultSpace = "urn:default" },
+	func(d *xml.Decoder) {
+		d.CharsetReader = func(label string, in io.Reader) (io.Reader, error) { return nil, fmt.Errorf("no charset %q", label) }
+	},
+	func(d *xml.Decoder) {
+		d.CharsetReader = func(label string, in io.Reader) (io.Reader, error) { return in, nil }
+	},
+}
+
+func safeReadXMLWith(b []byte, opt xsel.XmlParseOptions) (c store.Cursor, err error) {
+	defer func() {
+		if r := recover(); r != nil {
+			err = &panicError{r}
+		}
+	}()
+	return xsel.ReadXml(readerFor(b), opt)
 }
